@@ -655,7 +655,7 @@ Proof. unfold O.want. destruct sq as [v|]; [|auto]. destruct (O.valid (O.o_seq o
 
 Lemma oinv_step s lv e : OInv s lv -> OInv (fst (O.step O.observe_wire s e)) (live_after s lv e).
 Proof.
-  intros I. destruct e as [tok | m now | id code]; cbn [O.step live_after].
+  intros I. destruct e as [tok | m now | id code | id |]; cbn [O.step live_after].
   - (* registration *)
     unfold O.reg. destruct tok as [|b tok'].
     + cbn [fst]. constructor; cbn [O.tbl O.regs]; try apply I.
@@ -709,6 +709,12 @@ Proof.
     unfold O.cancel. destruct (nth_error (O.regs s) id) as [tok|]; [|cbn [fst]; exact I].
     destruct (O.tget (O.crc64 tok) (O.tbl s)) as [o|] eqn:Eg; cbn [fst]; [|exact I].
     apply oinv_delete; [exact I|exact Eg|lia].
+  - (* cancel whose deregistration exchange fails *)
+    unfold O.cancel_err, O.cancel_with. destruct (nth_error (O.regs s) id) as [tok|]; [|cbn [fst]; exact I].
+    destruct (O.tget (O.crc64 tok) (O.tbl s)) as [o|] eqn:Eg; cbn [fst]; [|exact I].
+    apply oinv_delete; [exact I|exact Eg|lia].
+  - (* a message that does not reach the observation handler *)
+    cbn [fst]. exact I.
 Qed.
 
 Definition orun (sl : O.st * list nat) (evs : list O.ev) : O.st * list nat :=
